@@ -623,7 +623,8 @@ impl AssetCategorizer {
             dependable_value = Some(
                 tx_proposal
                     .get_unused_ada()?
-                    .checked_add(&last_output.get_total_ada())?,
+                    .checked_add(&last_output.get_total_ada())?
+                    .checked_add(tx_proposal.get_fee())?,
             );
             min_value = Some(last_output.get_min_ada());
             tx_len -= CborCalculator::get_coin_size(&last_output.get_total_ada());
